@@ -22,15 +22,27 @@ namespace Arc.C09
 open Arc.Generated.C09
 
 /-- a row: identity of its full content and of its dedup key at each dedup level
-(1: time — `arc:dedup_time` without tags; 2: (host,time) — `arc:tags=host`; 3: (host,region,time)) -/
+(1: time — `arc:dedup_time` without tags; 2: (host,time) — `arc:tags=host`; 3: (host,region,time);
+4: (region,time) — `arc:tags=region`) -/
 structure Row where
   rid : Nat
   k1 : Nat
   k2 : Nat
   k3 : Nat
+  k4 : Nat
 deriving DecidableEq, Repr
 
-def keyAt (lvl : Nat) (r : Row) : Nat := if lvl == 1 then r.k1 else if lvl == 2 then r.k2 else r.k3
+def keyAt (lvl : Nat) (r : Row) : Nat :=
+  if lvl == 1 then r.k1 else if lvl == 2 then r.k2 else if lvl == 4 then r.k4 else r.k3
+
+/-- union of two declared tag sets (levels): 0 = none, 1 = no tags (time only), 2 = {host},
+4 = {region}, 3 = {host,region} -/
+def joinLevel (a b : Nat) : Nat :=
+  if a == 0 then b else if b == 0 then a else if a == b then a
+  else if a == 1 then b else if b == 1 then a else 3
+
+/-- `a`'s tag set is contained in `b`'s -/
+abbrev levelLe (a b : Nat) : Prop := joinLevel a b = b
 
 abbrev Path := Nat
 
@@ -100,6 +112,7 @@ structure Cfg where
   filterInputs  : Bool
   filterOutputs : Bool
   retryRecovers : Bool      -- a failed job's own manifest is recovered before the half-batch retry
+  tagUnion : Bool           -- the dedup key is the UNION of the inputs' tag lists (else: the first tagged input's)
   minBatch   : Nat
   maxDepth   : Nat
   defMax     : Nat
@@ -114,15 +127,22 @@ def genCfg (minFiles maxBatch : Nat) (d : Nat → List Row → List Row) : Cfg :
   { steps := jobSteps, recMissing := recOutputMissing, recMismatch := recSizeMismatch,
     recValid := recOutputValid, recoverFirst := cycleRecoversBeforeCandidates,
     filterInputs := filterExcludesManifestInputs, filterOutputs := filterExcludesManifestOutputs,
-    retryRecovers := retryConsultsManifests, minBatch := adaptiveMinBatch, maxDepth := adaptiveMaxDepth,
+    retryRecovers := retryConsultsManifests, tagUnion := dedupKeyIsUnionOfInputTags, minBatch := adaptiveMinBatch, maxDepth := adaptiveMaxDepth,
     defMax := defaultMaxFilesPerBatch, maxAllowed := maxAllowedFilesPerBatch, minFiles := minFiles,
     defMinFiles := hourlyDefaultMinFiles, maxBatch := maxBatch, dedupFn := d }
 
-/-- the union of the inputs' tag lists (levels are nested, so the union is the maximum) -/
-def jobLevel (fs : List File) : Nat := fs.foldl (fun acc f => max acc f.level) 0
+/-- the union of the inputs' tag lists -/
+def unionLevel (fs : List File) : Nat := fs.foldl (fun acc f => joinLevel acc f.level) 0
+
+/-- dedup level of a job: `readTagColumnsFromParquetFiles` + `readDedupTimeFromParquetFiles` -/
+def jobLevel (cfg : Cfg) (fs : List File) : Nat :=
+  if cfg.tagUnion then unionLevel fs
+  else match fs.find? (fun f => decide (f.level ≥ 2)) with
+    | some f => f.level
+    | none => if fs.any (fun f => f.level == 1) then 1 else 0
 
 def compactRows (cfg : Cfg) (fs : List File) : List Row :=
-  if jobLevel fs == 0 then fs.flatMap (fun f => f.rows) else cfg.dedupFn (jobLevel fs) (fs.flatMap (fun f => f.rows))
+  if jobLevel cfg fs == 0 then fs.flatMap (fun f => f.rows) else cfg.dedupFn (jobLevel cfg fs) (fs.flatMap (fun f => f.rows))
 
 /-! ## the job -/
 
